@@ -90,7 +90,7 @@ fn hammer(job: &Value) -> Value {
         };
         let barrier = Arc::new(Barrier::new(threads));
         let mut hs = Vec::new();
-        for t in 0..threads {
+        for _t in 0..threads {
             let b = barrier.clone();
             let p = pats.clone();
             let sm = simple_modes.clone();
